@@ -194,9 +194,9 @@ fn world() -> Plain {
     w.insert(AUTH, PlainAcc::eoa(100));
     w
 }
-pub const N_TX: usize = 14;
+pub const N_TX: usize = 15;
 fn tx_name(i: usize) -> &'static str {
-    ["new-ok", "new-revert", "old-ok", "old-halt", "bad-nonce", "no-funds", "create", "access-list", "set-code", "precompile-probe", "selfdestruct", "to-precompile", "blob", "value-to-empty"][i]
+    ["new-ok", "new-revert", "old-ok", "old-halt", "bad-nonce", "no-funds", "create", "access-list", "set-code", "precompile-probe", "selfdestruct", "to-precompile", "blob", "value-to-empty", "other-coinbase"][i]
 }
 /// environment of transaction `i` under `spec`
 fn case_for(spec: SpecId, i: usize) -> TxCase {
@@ -247,6 +247,11 @@ fn case_for(spec: SpecId, i: usize) -> TxCase {
         13 => {
             c.tx.to = Some(EMPTY);
             c.tx.value = U256::from(1);
+        }
+        14 => {
+            // the block's coinbase is BOK, an address later transactions read with BALANCE
+            c.tx.to = Some(AOLD);
+            c.block.coinbase = BOK;
         }
         _ => unreachable!(),
     }
@@ -309,7 +314,8 @@ impl<L: Layer> Model for M<L> {
         format!("reuse/{}/{:?}", L::NAME, self.alpha)
     }
     fn inits(&self) -> Vec<Vec<Op>> {
-        vec![vec![]]
+        // start from CANCUN and from PRAGUE (so that "newer spec, then older spec" fits in the depth bound)
+        vec![vec![], vec![Op::Spec(3)]]
     }
     fn fresh(&self) -> S<L> {
         let w = world();
@@ -520,7 +526,7 @@ pub fn run(ctx: &Ctx) -> i32 {
         acc.merge(explore::explore(&model::<State<FaultDb>>(*alpha), *depth, ctx));
     }
     let meta = Meta {
-        rule: format!("every history over the (alphabet, depth) pairs {plan:?} of {{14 transactions x (transact | transact_commit | preverify_transaction | preverify_transaction + transact_preverified), modify_spec_id / builder with_spec_id over 4 specs, transact_commit with the k-th database read failing}} on ONE Evm, each operation mirrored on a freshly built Evm over a twin database; alphabets: Full = 14x4 transactions + 8 spec changes + 4x8 faults, Medium = 14x2 + 6x2 + 8 + 4x2, Reduced = 8x2 + 3x2 + 6 + 4; no two histories are merged; distinct = distinct (canonical history, outcome)"),
+        rule: format!("every history over the (alphabet, depth) pairs {plan:?} of {{15 transactions x (transact | transact_commit | preverify_transaction | preverify_transaction + transact_preverified), modify_spec_id / builder with_spec_id over 4 specs, transact_commit with the k-th database read failing}} on ONE Evm, each operation mirrored on a freshly built Evm over a twin database; alphabets: Full = 15x4 transactions + 8 spec changes + 4x8 faults, Medium = 15x2 + 6x2 + 8 + 4x2, Reduced = 8x2 + 3x2 + 6 + 4; no two histories are merged; distinct = distinct (canonical history, outcome)"),
         assumptions: vec![
             "the twin database sees the same reads and commits, but only through Evm instances built for one operation".into(),
             "transaction menu: transient storage + cold accesses + log (ok / revert / halt endings), invalid nonce, insufficient funds, create, access list, EIP-7702, precompile probe (5, 9, 10, 11), self-destruct, value to a precompile address, blob, value to an empty account".into(),
